@@ -5,6 +5,7 @@ CONSTANTS
   PerUser = 2
   MaxSlots = 4
   InitSlots = {1, 2, 4}
+  InitTruth = {"unknown", "offline", "online"}
   AnyInitAttr = FALSE
   Statuses = {"unknown", "offline", "away", "online"}
   SlotBudget = 99
@@ -19,7 +20,10 @@ CONSTANTS
   WFriend = 5
   WPriv = 100
   StateChangeNotifies = TRUE
-  SlotsChangeNotifies = FALSE
+  SlotsChangeNotifies = TRUE
+  TaskEndNotifies = FALSE
+  RequeueTail = FALSE
+  TrackPerUser = TRUE
 INVARIANT TypeOK
 INVARIANT OnePerUser
 INVARIANT FlagsIffQueued
@@ -27,6 +31,8 @@ INVARIANT WakeIffRunnable
 INVARIANT NoDoubleTask
 INVARIANT TaskOnlyQueued
 INVARIANT OneTaskPerUser
+INVARIANT KnowledgeKept
+INVARIANT NoTaskWhileInFlight
 PROPERTY StartRespectsLimit
 PROPERTY NeverOffline
 PROPERTY PriorityHolds
